@@ -196,11 +196,11 @@ def evaluate(case, workdir, modname):
                                  f"lines {badl} of a slice were never executed", {"lines": badl}))
         # (3) dependence closure against the shadow interpreter
         k = None
-        if s["kind"] == "stmt" and s["idx"] >= n_stmt - 2:
-            k = s["idx"] - (n_stmt - 2)
+        if s["kind"] == "stmt":
+            k = rec["roles"].get(s["idx"])
         elif s["kind"] in ("assert", "store"):
             k = s["idx"]
-        if k is not None and 0 <= k < 2 and "loops" not in case["features"]:
+        if k is not None and 0 <= k < 3 and "loops" not in case["features"]:
             # (programs with loops are outside the property's quantifier for dependence closure; they
             # still take part in K2 and in the executed-ness checks)
             want = sh["deps"][k]
@@ -211,10 +211,28 @@ def evaluate(case, workdir, modname):
             if missing:
                 for kind, lns in classify(case, lm, k, missing, want).items():
                     findings.append((f"missing-dependence:{kind}",
-                                     f"the value of {'f' if k == 0 else 'g'}(...) depends on lines {lns} "
+                                     f"the value of {('f(...)', 'g(...)', 'box_0.get()')[k]} depends on lines {lns} "
                                      f"({kind}) which are not in the slice of criterion {s['kind']}#{s['idx']}",
                                      {"criterion": [s["kind"], s["idx"], s["pos"]], "missing": lns,
                                       "dependences": sorted(want), "slice_lines": sorted(have)}))
+    # (4) compute_statement_checked_lines over the whole test: a line that a statement's value depends on and
+    # that IS in that statement's slice must be among the checked lines of the test (a None-valued statement
+    # depends on nothing, so its own return-None cleansing never removes a dependence)
+    if "loops" not in case["features"]:
+        checked = {meta[i][1] for i in rec["checked_lines"] if meta[i][0] == path}
+        for s in rec["slices"]:
+            if s["kind"] != "stmt" or "slice" not in s or s["error"]:
+                continue
+            k = rec["roles"].get(s["idx"])
+            if k is None or (k == 1 and case.get("g_none")):
+                continue
+            have = {x["line"] for x in s["slice"] if x["file"] == path}
+            lost = sorted((sh["deps"][k] & have) - checked)
+            if lost:
+                findings.append(("checked-lines-drop-dependence",
+                                 f"lines {lost} are in the slice of statement #{s['idx']} and its value depends on "
+                                 f"them, but they are missing from the checked lines of the test",
+                                 {"lines": lost, "checked": sorted(checked)}))
     coq = None
     if oof == 0 and all("slice" in s for s in rec["slices"]):
         coq = c_case(rec)
@@ -336,7 +354,8 @@ def run(ctx: vlib.Ctx):
     profiles = [None, None, None, {"branch"}, set(), {"globals"}, {"branch", "globals"},
                 {"branch", "calls"}, {"attrs", "branch"}, {"lists", "branch"}, {"branch", "calls", "early", "andor"},
                 {"branch", "loops"}, {"branch", "loops", "lists", "calls"},
-                {"lists", "nested"}, {"lists", "nested", "calls"}, {"lists", "nested", "calls", "branch"}]
+                {"lists", "nested"}, {"lists", "nested", "calls"}, {"lists", "nested", "calls", "branch"},
+                {"calls", "shadowing"}, {"calls", "shadowing", "branch"}]
     for _ in range(n_cases):
         cases.append(_tolist(core.gen_case(ctx.rng, ctx.rng.choice(profiles))))
     scratch = ctx.mkscratch()
@@ -391,7 +410,8 @@ def run(ctx: vlib.Ctx):
         except Exception:  # noqa: BLE001
             pass
         ctx.fail(sig, msg, {"case": case, "source": src, "detail": detail,
-                            "test": "int_0=c0; int_1=c1; [box_0=Box(c2)]; var_0=f(int_0,int_1[,box_0]); var_1=g(int_1,int_0[,box_0])"})
+                            "test": "int_0=c0; int_1=c1; [int_2=c2; box_0=Box(int_2)]; var_0=f(int_0,int_1[,box_0]); var_1=g(int_1,int_0[,box_0]); "
+                                    "[int_2; box_0]; none_0=box_0.set(int_0); var_2=box_0.get(); none_1=box_0.set(int_1)"})
     ctx.log(f"oracle done, {n_fail} failures, signatures {sorted(seen_sig)}")
     ctx.leg("S", oracle_failures=n_fail, programs=len(results), distinct_signatures=sorted(seen_sig))
     ctx.cov["rule"] = ("generated modules (globals, class Box, helpers, entries f/g) over locals, globals, "
